@@ -3,6 +3,7 @@ import Logrange.Proofs.ScanWorker
 import Logrange.Proofs.ScanDrain
 import Logrange.Model.Descs
 import Logrange.Generated.C17
+import Logrange.Model.StateFile
 /-!
 # C17 — Collector ships every byte of a tailed file once, in order; offsets resume
 
@@ -75,7 +76,7 @@ theorem partial_line_poll_reports_eof (B : Nat) (hB : 0 < B) (s : St) (ps : List
 theorem code_facts :
     Generated.C17.posAdvancesByLineLength = true ∧ Generated.C17.setOffsetOnlyAfterConfirm = true ∧
     Generated.C17.finalPersistAfterLoop = true ∧ Generated.C17.eventGetsOwnRecordSlice = true ∧
-    Generated.C17.readerKeepsPartialReportsEOF = true ∧
+    Generated.C17.readerKeepsPartialReportsEOF = true ∧ Generated.C17.stateFileReplacedAtomically = true ∧
     16 ≤ Generated.C17.recordMaxSizeMin ∧
     Generated.C17.recordMaxSizeMin ≤ Generated.C17.recordMaxSizeDefault ∧
     Generated.C17.recordMaxSizeDefault ≤ Generated.C17.recordMaxSizeMax := by decide
@@ -267,6 +268,19 @@ theorem rotated_partial_line_worker_stops (k start : Nat) (hk : 1 ≤ k) (tr : L
     simp only [hd.pc, isSetting, Bool.false_eq_true, if_false, hd.recs, bytesOf_nil, confEnd, hd.start, hst] at this
     omega
   exact ⟨drain_length k lines _, hd.pc, hd.byEof, hd.ws, hd.confirmed, hd.offset, hpos'⟩
+
+/-- **`state_file_old_or_new`** (fix e59ee79) At every crash cut of a save, `scanner.json` holds the old or the new
+complete content: what a restart loads is a state that was persisted, so `crash_resends_bounded` speaks about every
+crash, also one during a save. -/
+theorem state_file_old_or_new (old new c : Bytes)
+    (h : c ∈ StateFile.crashCuts Generated.C17.stateFileReplacedAtomically old new) : c = old ∨ c = new := by
+  have hf : Generated.C17.stateFileReplacedAtomically = true := by decide
+  simpa [StateFile.crashCuts, hf] using h
+
+/-- the in-place write of the old code passes through the empty file and every prefix (fixed finding F60) -/
+theorem cex_state_file_in_place :
+    ([] : Bytes) ∈ StateFile.crashCuts false [1, 2] [3, 4] ∧ ([3] : Bytes) ∈ StateFile.crashCuts false [1, 2] [3, 4] := by
+  decide
 
 /-! ## rotation -/
 
